@@ -149,6 +149,7 @@ impl BlockWriter {
         }
 
         let mut offset: usize = 0;
+        let mut stalled = false;
         loop {
             let size = self.decoder.as_mut().unwrap().write(&pkt[offset..])?;
             self.decoder_read(writer, now)?;
@@ -156,6 +157,20 @@ impl BlockWriter {
             if offset == pkt.len() {
                 break;
             }
+
+            if size == 0 {
+                if self.content_length_left == Some(0) {
+                    // The whole content has been written, the decoder is not read anymore:
+                    // what is left (checksum, trailer) is discarded
+                    break;
+                }
+
+                if stalled {
+                    // The decoder did not consume anything since the previous attempt
+                    return Err(FluteError::new("Decompression is stalled"));
+                }
+            }
+            stalled = size == 0;
         }
         Ok(())
     }
